@@ -477,7 +477,33 @@ impl Scenario for CaseMutation {
         for (o, d) in &violations {
             out.violate(o, d.clone());
         }
-        // Key agreement between the two ends, at the end of the run
+        if std::env::var_os("VERIF_DUMP").is_some() {
+            let mut orig: BTreeMap<u64, Vec<u8>> = BTreeMap::new();
+            for ev in &run.tap {
+                match ev {
+                    crate::net::TapEvent::Send(s) => {
+                        orig.insert(s.id, s.bytes.clone());
+                    }
+                    crate::net::TapEvent::Deliver { id, time, node, modified: true, bytes: Some(b), .. } => {
+                        let o = orig.get(id).cloned().unwrap_or_default();
+                        let op = crate::wire::decode_plain(&o)
+                            .and_then(|p| crate::wire::decode_proto(&o, &p, None, 0).map(|pr| (p.sess_id, pr.proto_id, pr.opcode)));
+                        let diff = o.iter().zip(b.iter()).position(|(x, y)| x != y);
+                        eprintln!("MUT t={time} id={id} to={node} orig_len={} new_len={} first_diff={:?} orig(sess,proto,op)={:x?}", o.len(), b.len(), diff, op);
+                    }
+                    _ => {}
+                }
+            }
+        }
+        // Key agreement between the two ends, on every probe during the run ...
+        out.count("c01_session_pairs_compared_during_run", run.session_pairs_compared);
+        for (t, ds, node, xs) in &run.key_mismatches {
+            out.violate(
+                "C01-ends-hold-different-keys",
+                format!("t={t}: device session {ds} and session {xs} of controller node {node} are a pair by session ids and addresses but their directional keys differ"),
+            );
+        }
+        // ... and at the end of the run
         if let (Some(Some(dev)), Some(Some(x))) = (run.snaps.first(), run.snaps.get(1)) {
             // (Expired sessions are leftovers of earlier device incarnations, whose session ids
             // start over after a restart)
